@@ -58,7 +58,7 @@ def values(tier, seed):
     for p in Prefix:
         # (1000 / 0.001 / 1: the same values written with neighbouring prefixes - equal numbers, different digits)
         for m in ("1", "1.50", "-0.000123", "12345678901234567890123456789012345678901", "3E+2", "1000", "0.001",
-                  "2500", "2.50"):
+                  "2500", "2.50", "1.00000000000000000001", "123456789012345678.5", "0.99999999999999999999", "-7.0000000000000000004"):
             vals.append(h.Prefixed(number=Decimal(m), prefix=p))
     n = 400 if tier == "thorough" else 40
     for _ in range(n):
